@@ -275,6 +275,8 @@ func (ex *Exec) applyFork(s *State, instr ssa.Value, fork *Fork) []*State {
 func (ex *Exec) builtin(s *State, fr *Frame, b *ssa.Builtin, cc *ssa.CallCommon, args []Value) (Value, error) {
 	c := ex.Ctx
 	switch b.Name() {
+	case "close":
+		return nil, ex.chanClose(s, args[0])
 	case "len":
 		switch x := args[0].(type) {
 		case StringV:
